@@ -35,13 +35,39 @@ impl SegmentFileWriter {
             header.set_payload_length(payload_length);
             header.set_record_id(record_id);
         }
+        #[cfg(feature = "verif")]
+        let _vg = {
+            use std::os::fd::AsRawFd as _;
+            crate::verif::pre(
+                "segment_write_header",
+                crate::verif::Kind::Append,
+                self.file.as_raw_fd(),
+                self.file_size,
+                &header,
+            )?
+        };
         self.file.write_all(&header)?;
+        #[cfg(feature = "verif")]
+        _vg.done();
         self.file_size += HEADER_SIZE as u64;
         Ok(())
     }
 
     pub fn write_payload(&mut self, payload: &[u8]) -> std::io::Result<()> {
+        #[cfg(feature = "verif")]
+        let _vg = {
+            use std::os::fd::AsRawFd as _;
+            crate::verif::pre(
+                "segment_write_payload",
+                crate::verif::Kind::Append,
+                self.file.as_raw_fd(),
+                self.file_size,
+                payload,
+            )?
+        };
         self.file.write_all(payload)?;
+        #[cfg(feature = "verif")]
+        _vg.done();
         // Calculate the next aligned position.
         let record_alignment = RECORD_ALIGNMENT as u64;
         let current_end = self.file_size + payload.len() as u64;
@@ -52,14 +78,40 @@ impl SegmentFileWriter {
         };
         // The reason we are setting the length here is because otherwise if we just seek and not
         // set the length, then the underlying file may not be extended.
+        #[cfg(feature = "verif")]
+        let _vg = {
+            use std::os::fd::AsRawFd as _;
+            crate::verif::pre(
+                "segment_pad",
+                crate::verif::Kind::SetLen,
+                self.file.as_raw_fd(),
+                next_pos,
+                &[],
+            )?
+        };
         self.file.set_len(next_pos)?;
+        #[cfg(feature = "verif")]
+        _vg.done();
         self.file.seek(SeekFrom::Start(next_pos))?;
         self.file_size = next_pos;
         Ok(())
     }
 
     pub fn fsync(&mut self) -> std::io::Result<()> {
+        #[cfg(feature = "verif")]
+        let _vg = {
+            use std::os::fd::AsRawFd as _;
+            crate::verif::pre(
+                "segment_fsync",
+                crate::verif::Kind::Fsync,
+                self.file.as_raw_fd(),
+                0,
+                &[],
+            )?
+        };
         self.file.sync_data()?;
+        #[cfg(feature = "verif")]
+        _vg.done();
         Ok(())
     }
 
